@@ -83,7 +83,7 @@ INVARIANTS = ["SizeOK", "TargetOK", "AllocBeforePublish", "NoUAF", "NoErr"]
 MC_INVARIANTS = ["QuiescentConverged", "GrowWins", "DestroyOK"]      # + TLC's deadlock check (MCSpec stutters at quiescence only)
 
 COVERAGE = bool(os.environ.get("C09_COVERAGE"))
-QUICK = ["resize_seq_m1", "resize_seq_m2", "resize_seq_m4", "resize_seq_m8", "resize_seq_m16", "resize_conc2", "resize_rd", "resize_part_fn", "resize_part_f0", "resize_part_f1", "resize_part_auto",
+QUICK = ["resize_seq_m1", "resize_seq_m2", "resize_seq_m4", "resize_seq_m8", "resize_seq_m16", "resize_conc2", "resize_rd", "resize_part_fn", "resize_part_f0", "resize_part_f1", "resize_part_auto", "resize_acct_only",
          "resize_lazy_chain1", "resize_lazy_seq", "resize_lazy_count_grow", "resize_lazy_count_shrink", "resize_lazy_shrink_race",
          "resize_destroy_queued", "resize_destroy_plain", "resize_destroy_eperm"]
 THOROUGH_ONLY = ["resize_conc", "resize_lazy_chain", "resize_part_f2", "resize_nocpu", "resize_destroy_2t", "resize_destroy_helper"]
